@@ -414,6 +414,36 @@ def viewItems (c : Cfg) (all : Items) : Items → Bool → Bytes → DState × O
       else (viewItem c all r i bs s).bind fun (s', bs') => viewItems c all r true bs' s'
     | none => (viewItem c all r i bs s).bind fun (s', bs') => viewItems c all r false bs' s'
 
+/-- `RootView::Create(slice)` and then `ChildView::Create(parent)` down to this declaration (`generate_packet_view`): a child
+    view requires a valid parent, copies the parent's unconstrained fields, parses its own fields from `parent.payload_` and is
+    invalid when octets are left over.  NO constraint is checked (KF-C14-child-constraint): the getter of a constrained field
+    returns the constant.  The value: own fields, the copied ones, the payload — with the hazard a getter would meet.  (A slice
+    holds fewer than 2^64 octets: a longer payload does not exist.) -/
+def viewBody (c : Cfg) : Body → Bytes → Dec (Value × Option Hazard)
+  | .root _ items, bs =>
+    (viewItems c items items false bs (DState.empty, none)).bind fun ((st, hz), r) =>
+      if !r.isEmpty then .err .trailingBytes
+      else .ok (.obj (st.fields ++
+                      (match st.payload with
+                       | some p => [("payload", Value.ofBytes p)]
+                       | none => [])), hz)
+  | .derived _ parent cs _ items, bs =>
+    (viewBody c parent bs).bind fun (pv, phz) =>
+      let copied := pv.fields.filter fun (k, _) => k != "payload" && !(cs.any (·.1 == k))
+      if parent.hasPayload then
+        let pbytes : Bytes := match pv.fields.lookup "payload" with
+          | some (.arr vs) => vs.map fun v => UInt8.ofNat ((v.asNat?).getD 0)
+          | _ => []
+        if pbytes.length ≥ usizeMax then .panic .badLayout
+        else
+          (viewItems c items items false pbytes (DState.empty, phz)).bind fun ((st, hz), r) =>
+            if !r.isEmpty then .err .trailingBytes
+            else .ok (.obj (st.fields ++ copied ++
+                            (match st.payload with
+                             | some p => [("payload", Value.ofBytes p)]
+                             | none => [])), hz)
+      else .ok (.obj copied, phz)
+
 /-- `TView::Create(slice)`, `IsValid()`, then every getter: the field values of a valid view -/
 def viewDecode (c : Cfg) : Body → Bytes → Dec Value
   | .root _ items, bs =>
@@ -427,7 +457,11 @@ def viewDecode (c : Cfg) : Body → Bytes → Dec Value
                     (match st.payload with
                      | some p => [("payload", Value.ofBytes p)]
                      | none => [])))
-  | .derived .., _ => .panic .badLayout
+  | .derived nm parent cs allCs items, bs =>
+    (viewBody c (.derived nm parent cs allCs items) bs).bind fun (v, hz) =>
+      match hz with
+      | some h => .panic h
+      | none => .ok v
 
 /-! ### the layouts on which the emitted view parser and its getters are shown to agree with the reference -/
 
@@ -449,6 +483,12 @@ def vwfItems (all : Items) : Items → Bool
 def vwfBody : Body → Bool
   | .root _ items => vwfItems items items
   | .derived .. => false
+
+/-- a child view and its ancestors: every level's own fields in the class of the view theorem, every parent with a payload -/
+def vwfChain : Body → Bool
+  | .root _ items => vwfItems items items && !(itemsIds items).contains "payload"
+  | .derived _ parent _ _ items =>
+    vwfItems items items && !(itemsIds items).contains "payload" && parent.hasPayload && vwfChain parent
 
 
 /-! ### the serializer (`FieldSerializer`, `Builder::Serialize` / `T::Serialize`) -/
